@@ -290,6 +290,53 @@ def run(rep: Report, prog: Program, tier: str) -> None:
             out.append((received, ext_max, expected, max(-(1 << 23), min(expected - received, (1 << 23) - 1)), jitter >> 4))
         return out
 
+    # C18-REPORT: the statement of _run_rtcp that turns the statistics into a receiver report block, evaluated on the statistics objects the
+    # sequences above produce, then serialised and parsed back
+    rep.rule("C18-REPORT", "the receiver report block built from the statistics carries the RFC 3550 values and can always be serialised", min_instances=8)
+    rloops = [n for n in ast.walk(run_rtcp.node) if isinstance(n, ast.For) and "__remote_streams" in unparse(n.iter)]
+    if len(rloops) != 1:
+        raise AnalysisError("_run_rtcp: the loop over __remote_streams building the report blocks was not found")
+    rr_bytes = prog.func("rtp.RtcpRrPacket.__bytes__")
+    rtcp_parse = prog.func("rtp.RtcpPacket.parse")
+
+    def _report_case(label, ss, ref_last, ohs, evs, clock):
+        received, ext_max, expected, lost, jitter = ref_last
+        me = _NS2(__cls__=run_rtcp.cls)
+        setattr(me, "__remote_streams", {4321: ss})
+        setattr(me, "__lsr", {4321: 0x12345678})
+        setattr(me, "__lsr_time", {4321: clock[0] - 1.5})
+        ev6 = _Ev2(prog, run_rtcp.module, run_rtcp.cls, {"self": me, "reports": []}, ohs)
+        try:
+            ev6.exec_stmt(rloops[0])
+            reports = ev6.env["reports"]
+            if len(reports) != 1:
+                raise AnalysisError(f"C18-REPORT: {len(reports)} report blocks built for one stream")
+            r0 = reports[0]
+            # RFC 3550 A.3 for the first interval: everything since the start
+            lost_int = expected - received
+            frac = 0 if expected == 0 or lost_int <= 0 else (lost_int << 8) // expected
+            want_fields = dict(ssrc=4321, fraction_lost=frac, packets_lost=lost, highest_sequence=ext_max & 0xFFFFFFFF, jitter=jitter, lsr=0x12345678, dlsr=int(1.5 * 65536))
+            got_fields = {k: getattr(r0, k, None) for k in want_fields}
+            diff = {k: (got_fields[k], v) for k, v in want_fields.items() if got_fields[k] != v}
+            if diff:
+                rep.fail(mk_finding(prog, PROP, "C18-REPORT", run_rtcp, rloops[0], f"[{label}] report block differs from the RFC 3550 values (got, expected): {diff}",
+                                    construct="report block: " + sorted(diff)[0]))
+                return
+            pkt = ohs.instantiate(prog.cls("rtp.RtcpRrPacket"), [], dict(ssrc=7, reports=reports), evs)
+            raw = ohs.run_method(rr_bytes, pkt, [], {})
+            from .objhook import ClassRef as _CR
+            back = ohs.run_method(rtcp_parse, _CR(prog.cls("rtp.RtcpPacket")), [raw], {})
+            b0 = back[0].reports[0]
+            diff = {k: (getattr(b0, k, None), v) for k, v in want_fields.items() if getattr(b0, k, None) != v}
+            if diff:
+                rep.fail(mk_finding(prog, PROP, "C18-REPORT", run_rtcp, rloops[0], f"[{label}] the serialised report parses back differently (got, expected): {diff}", construct="report block on the wire: " + sorted(diff)[0]))
+            else:
+                rep.ok("C18-REPORT", label, sample=str(want_fields))
+        except _R2 as ex_:
+            rep.fail(mk_finding(prog, PROP, "C18-REPORT", run_rtcp, getattr(ex_, "node", None), f"[{label}] building / serialising the receiver report raises {ex_.name}", construct=f"report raises {ex_.name}"))
+        except _U2 as ex_:
+            raise AnalysisError(f"C18-REPORT cannot evaluate [{label}]: {ex_}")
+
     def make_seq(kind: str, seq0: int, ts0: int = 0):
         pk = []
         if kind == "in order, steady":
@@ -342,6 +389,7 @@ def run(rep: Report, prog: Program, tier: str) -> None:
         bad = next((i for i, (g, w) in enumerate(zip(got, want2)) if g != w), None)
         if bad is None:
             rep.ok("C18-REF", label, sample=f"{len(got)} packets: received/extended max/expected/lost/jitter all equal; final {got[-1]}")
+            _report_case(label, ss, want[-1], ohs, evs, clock)
         else:
             names = ("packets received", "extended highest sequence", "packets expected", "cumulative lost", "jitter")
             diff_ = [f"{names[k]} {got[bad][k]} (reference {want2[bad][k]})" for k in range(5) if got[bad][k] != want2[bad][k]]
